@@ -30,10 +30,11 @@ unsigned y_log_error;
  * symbolic configured capacity y_table_n <= cap, so that one proof covers every YAKUSHIMA_MAX_PARALLEL_SESSIONS. */
 uint64_t y_table_n;
 #ifdef Y_SYMBOLIC_TABLE
-#define Y_ARR_END(p, N) (&(p)->a[0] + ((N) == Y_SYMBOLIC_TABLE ? y_table_n : (uint64_t)(N)))
+#define Y_ARR_N(p, N) ((N) == Y_SYMBOLIC_TABLE ? y_table_n : (uint64_t)(N))
 #else
-#define Y_ARR_END(p, N) (&(p)->a[0] + (N))
+#define Y_ARR_N(p, N) ((uint64_t)(N))
 #endif
+#define Y_ARR_END(p, N) (&(p)->a[0] + Y_ARR_N(p, N))
 #define Y_FILL(p, N, v) { for (unsigned y_i = 0; y_i < (N); ++y_i) (p)->a[y_i] = (v); }
 #define Y_MIN(T, a, b) ((T)(b) < (T)(a) ? (T)(b) : (T)(a))
 #define Y_BITSET_SET(p, i) (*(p) = (uint16_t)(*(p) | (uint16_t)(1u << (i))))
@@ -142,6 +143,10 @@ static inline void* y_int2ptr(uint64_t x)
 /* ghost event clock for store ordering */
 unsigned y_ev;
 
+/* field groups of the per-type ghost record, for precise assigns clauses */
+#define Y_G_LD(S) y_g_##S.ld_cnt, y_g_##S.ld_val, y_g_##S.ld_loc, y_g_##S.obs
+#define Y_G_ST(S) y_g_##S.st_cnt, y_g_##S.st_val, y_g_##S.st_loc, y_g_##S.st_ev
+#define Y_G_CAS(S) y_g_##S.cas_ok, y_g_##S.cas_fail, y_g_##S.cas_old, y_g_##S.cas_new, y_g_##S.cas_loc, y_g_##S.cas_ev, y_g_##S.cas_seen, y_g_##S.obs
 /* ghost counters saturate (never wrap) */
 #define Y_SAT_INC(x) ((x) += ((x) != 0xffffffffu))
 /* std::atomic<T> / __atomic builtins: one sequentially consistent step each (memory orders dropped).
@@ -149,19 +154,20 @@ unsigned y_ev;
  * fails nondeterministically (on failure `expected` receives any value). Stores always hit memory. */
 #define Y_DEFINE_ATOMIC(T, S) \
   T nondet_##S(void); \
-  typedef struct y_ghost_##S { _Bool arb; unsigned ld_cnt; T ld_val; T* ld_loc; unsigned cas_ok; unsigned cas_fail; T cas_old; T cas_new; T* cas_loc; \
-                               unsigned st_cnt; T st_val; T* st_loc; unsigned st_ev; unsigned cas_ev; T cas_seen; } y_ghost_##S; \
+  _Bool y_arb_##S; \
+  typedef struct y_ghost_##S { unsigned ld_cnt; T ld_val; T* ld_loc; unsigned cas_ok; unsigned cas_fail; T cas_old; T cas_new; T* cas_loc; \
+                               unsigned st_cnt; T st_val; T* st_loc; unsigned st_ev; unsigned cas_ev; T cas_seen; T obs; } y_ghost_##S; \
   y_ghost_##S y_g_##S; \
-  static inline T Y_LOAD_##S(T* loc) { T v; if (y_g_##S.arb) v = nondet_##S(); else v = *loc; \
-    Y_SAT_INC(y_g_##S.ld_cnt); y_g_##S.ld_val = v; y_g_##S.ld_loc = loc; return v; } \
+  static inline T Y_LOAD_##S(T* loc) { T v; if (y_arb_##S) v = nondet_##S(); else v = *loc; \
+    Y_SAT_INC(y_g_##S.ld_cnt); y_g_##S.ld_val = v; y_g_##S.ld_loc = loc; y_g_##S.obs = v; return v; } \
   static inline void Y_STORE_##S(T* loc, T v) { *loc = v; Y_SAT_INC(y_g_##S.st_cnt); y_g_##S.st_val = v; y_g_##S.st_loc = loc; y_g_##S.st_ev = ++y_ev; } \
   static inline _Bool Y_CAS_##S(T* loc, T* expected, T desired) { \
     _Bool ok; \
-    if (y_g_##S.arb) ok = nondet_bool(); else ok = (y_memcmp16(loc, expected, sizeof(T)) == 0) && nondet_bool(); \
-    if (ok) { Y_SAT_INC(y_g_##S.cas_ok); y_g_##S.cas_old = *expected; y_g_##S.cas_new = desired; y_g_##S.cas_loc = loc; y_g_##S.cas_ev = ++y_ev; *loc = desired; return 1; } \
+    if (y_arb_##S) ok = nondet_bool(); else ok = (y_memcmp16(loc, expected, sizeof(T)) == 0) && nondet_bool(); \
+    if (ok) { Y_SAT_INC(y_g_##S.cas_ok); y_g_##S.obs = *expected; y_g_##S.cas_old = *expected; y_g_##S.cas_new = desired; y_g_##S.cas_loc = loc; y_g_##S.cas_ev = ++y_ev; *loc = desired; return 1; } \
     Y_SAT_INC(y_g_##S.cas_fail); \
-    if (y_g_##S.arb) *expected = nondet_##S(); else *expected = *loc; \
-    y_g_##S.cas_seen = *expected; \
+    if (y_arb_##S) *expected = nondet_##S(); else *expected = *loc; \
+    y_g_##S.cas_seen = *expected; y_g_##S.obs = *expected; \
     return 0; }
 
 #define Y_DEFINE_ATOMIC_ARITH(T, S) \
